@@ -545,5 +545,12 @@ example : applyUpdate exM (mkView ["a", "zz"] .tt) (.frame [1] [⟨"a", .int, [.
     = (exM, some .newColumn) := by decide
 example : SameContent exFrame ⟨[0, 2], [⟨"b", .flt, [.null, .flt 9 0]⟩, ⟨"a", .int, [.int 10, .int 30]⟩]⟩ :=
   ⟨by decide, by decide, .cons ⟨rfl, rfl⟩ (.cons ⟨rfl, rfl⟩ .nil), by decide⟩
+/-- lessons 14 / 15: an update whose index is the range OBJECT `RangeIndex(2, -1, -1)` (`pop.index[::-1]`: labels 2, 1, 0,
+negative stop) and whose values are null for everybody: every addressed cell becomes null, `a` is untouched -/
+example : (Req.range 2 (-1) (-1)).resolve = .ok [2, 1, 0] := by decide
+example : (update exM exView (.series (some "b") .flt [2, 1, 0] [.null, .null, .null])).map (·.table.col? "b")
+    = .ok (some ⟨"b", .flt, [.null, .null, .null]⟩) := by decide
+/-- nothing but NaN offered to an int column is a float update: rejected, nothing written -/
+example : applyUpdate exM exView (.frame [2, 1, 0] [⟨"a", .flt, [.null, .null, .null]⟩]) = (exM, some .dtype) := by decide
 
 end Viv.Props.C11
